@@ -44,6 +44,10 @@ func VerifC12_PacketRead() {
 	vf.Assert("at-most-once", calls <= 1)
 	vf.Assert("dispatched-restored", ioc.Dispatched == d0)
 	f := &vkernel.K.FDs[fd]
+	if calls == 1 && f.Recvs == 1 {
+		// the kernel handed over one non-empty datagram and the caller's buffer is non-empty: that read succeeds
+		vf.Assert("a-delivered-datagram-completes-the-read-successfully", gotErr == nil)
+	}
 	if calls == 1 && gotErr == nil {
 		vf.Reach("datagram")
 		vf.Assert("one-datagram-one-callback", f.Recvs == 1)
